@@ -231,3 +231,83 @@ pub fn shared_history(ctx : &Ctx, out : &mut Out)
         out.case(world::show_history_case(false, 1_000_000, &ops), sexp::list(obs), true);
     }
 }
+
+/// C13 "old results are never applied to [another rule]": several rules with the SAME declared sources stand next to
+/// each other; one of them fails in the first build for a reason that changes neither its text nor its sources (an
+/// undeclared file is missing), the others succeed; the cause is repaired (optionally after a clean) and the build
+/// repeated. What each rule finds in its history must be ITS OWN earlier result: every target must end up with its own
+/// from-scratch content, nobody may be reported as contradicting a record, and every history file on disk must be named
+/// after a rule of the rules file whose remembered outputs are hashes of that rule's own outputs. Correspondence cases too.
+pub fn neighbours(ctx : &Ctx, out : &mut Out)
+{
+    use crate::scenario::{RuleSpec, Scenario};
+    let mut rng = Rng::new(ctx.seed).fork(131313);
+    let n = if ctx.thorough { 800 } else { 60 };
+    for i in 0..n
+    {
+        let mut r = rng.fork(i as u64);
+        // 2..4 rules, all reading `in`; target names in random order so that the failing one is not always spawned first
+        let mut names : Vec<String> = vec!["f".to_string(), "g".to_string(), "h".to_string(), "k".to_string()];
+        r.shuffle(&mut names);
+        let n_rules = r.range(2, 4);
+        let failing = r.below(n_rules);
+        let mut rules = vec![];
+        for k in 0..n_rules
+        {
+            let t = names[k].clone();
+            let script = if k == failing { vec![format!("gen {} @in @extra", t)] } else { vec![format!("gen {} @in ={}", t, t)] };
+            rules.push(RuleSpec{targets : vec![t], sources : vec!["in".to_string()], script : script, raw_command : None});
+        }
+        let sc = Scenario{rules : rules, split_tokens : false};
+        let driver = Driver::new(ClockMode::Fine, 1_000_000);
+        let mut ops : Vec<Op> = vec![];
+        let mut obs : Vec<String> = vec![];
+        let user = |op : Op, ops : &mut Vec<Op>, obs : &mut Vec<String>| { driver.user(&op); driver.tick(); obs.push(world::show_obs(None, &driver.sys.disk())); ops.push(op); };
+        let invoke = |op : Op, ops : &mut Vec<Op>, obs : &mut Vec<String>| { let inv = driver.invoke(&op, Policy::Serial); driver.tick(); obs.push(world::show_obs(Some(&inv), &driver.sys.disk())); ops.push(op); inv };
+        let replay = |ops : &Vec<Op>| { let mut j = Json::obj(); j.set("suite", Json::s("c13_neighbours")); j.set("ops", Json::Arr(ops.iter().map(|o| Json::s(&o.describe())).collect())); j.set("case", Json::s(&world::show_history_case(false, 1_000_000, ops))); j };
+        user(Op::Write(RULES_PATH.to_string(), sc.render().into_bytes()), &mut ops, &mut obs);
+        user(Op::Write("in".to_string(), b"I".to_vec()), &mut ops, &mut obs);
+        // sometimes everything was built once before (so the cache holds everybody's output)
+        let prebuilt = r.chance(1, 2);
+        if prebuilt
+        {
+            user(Op::Write("extra".to_string(), b"E".to_vec()), &mut ops, &mut obs);
+            invoke(Op::Build(None), &mut ops, &mut obs);
+            user(Op::Remove("extra".to_string()), &mut ops, &mut obs);
+            user(Op::Remove(names[failing].clone()), &mut ops, &mut obs);
+            if r.chance(1, 2) { user(Op::Write("in".to_string(), b"J".to_vec()), &mut ops, &mut obs); }
+        }
+        let b1 = invoke(Op::Build(None), &mut ops, &mut obs);
+        if b1.verdict.is_ok() { out.violation("C04:failure-not-reported", "the undeclared input is missing, yet the build succeeds".to_string(), replay(&ops)); }
+        if r.chance(1, 2) { invoke(Op::Clean(None), &mut ops, &mut obs); }
+        user(Op::Write("extra".to_string(), b"E".to_vec()), &mut ops, &mut obs);
+        let b2 = invoke(Op::Build(None), &mut ops, &mut obs);
+        let b3 = invoke(Op::Build(None), &mut ops, &mut obs);
+        let now = disk_files(&driver.sys.disk());
+        let input = now.get("in").cloned().unwrap_or_default();
+        let own = |k : usize| -> Vec<u8> { let mut v = input.clone(); if k == failing { v.extend_from_slice(b"E"); } else { v.extend_from_slice(names[k].as_bytes()); } v };
+        if let crate::world::Verdict::WorkErrors(es) = &b2.verdict
+        {
+            if es.iter().any(|e| e.contains("Contradiction")) { out.violation("C13:record-of-another-rule-contradicts", format!("after the repair the build reports {}: a rule was compared with a record that is not its own", b2.verdict.show()), replay(&ops)); }
+        }
+        if b2.verdict.is_ok()
+        {
+            for k in 0..n_rules
+            {
+                if now.get(&names[k]) != Some(&own(k))
+                {
+                    let holds = now.get(&names[k]).map(|c| String::from_utf8_lossy(c).to_string());
+                    let whose = (0..n_rules).find(|j| now.get(&names[k]) == Some(&own(*j)));
+                    out.violation("C13:results-of-another-rule-applied", format!("{:?} holds {:?} after a successful build; its own output is {:?}{}", names[k], holds, String::from_utf8_lossy(&own(k)), match whose { Some(j) => format!(" (that is the output of the rule of {:?})", names[j]), None => String::new() }), replay(&ops));
+                    break;
+                }
+            }
+            if b3.verdict.is_ok() && !b3.commands.is_empty()
+            {
+                out.violation("C13:own-record-not-found", format!("the build was repeated with nothing changed and ran {:?}: a rule did not find its own record", b3.commands.iter().map(|c| c.1.clone()).collect::<Vec<_>>()), replay(&ops));
+            }
+        }
+        out.count(if prebuilt { "neighbours:prebuilt" } else { "neighbours:fresh" });
+        out.case(world::show_history_case(false, 1_000_000, &ops), sexp::list(obs), true);
+    }
+}
